@@ -1319,6 +1319,7 @@ class GroupCHKStreamSource(StreamSource):
         self._text_fetch_order = "groupcompress"
         self._chk_id_roots = None
         self._chk_p_id_roots = None
+        self._ghost_parent_invs = False
 
     def _get_inventory_stream(self, inventory_keys, allow_absent=False):
         """Get a stream of inventory texts.
@@ -1414,8 +1415,14 @@ class GroupCHKStreamSource(StreamSource):
         # A stacked target cannot store a delta whose basis lives only in a
         # fallback, so emit delta closures when asked for a self-contained
         # stream.
+        text_keys = self._text_keys
+        if self._ghost_parent_invs:
+            # Texts shared with the inventory of a ghost parent: send the ones
+            # we hold.  (A stacked repository opened without its fallback
+            # holds parent inventories whose texts live in the fallback.)
+            text_keys = set(self.from_repository.texts.get_parent_map(text_keys))
         text_stream = self.from_repository.texts.get_record_stream(
-            self._text_keys,
+            text_keys,
             self._text_fetch_order,
             self._stream_self_contained_texts,
         )
@@ -1454,6 +1461,19 @@ class GroupCHKStreamSource(StreamSource):
             # which we have inventories
             from_repo = self.from_repository
             parent_keys = from_repo._find_parent_keys_of_revisions(self._revision_keys)
+            # A parent whose revision we do not hold, but whose inventory we
+            # store (a parent inventory kept for a ghost), cannot have been
+            # found present in the target by the revision search.  Do not use
+            # it as a basis: a target without it would miss every text it
+            # shares with the revisions we send.
+            ghost_parent_keys = parent_keys.difference(
+                from_repo.revisions.get_parent_map(parent_keys)
+            )
+            self._ghost_parent_invs = bool(
+                ghost_parent_keys
+                and from_repo._find_present_inventory_keys(ghost_parent_keys)
+            )
+            parent_keys.difference_update(ghost_parent_keys)
             self.from_repository.revisions.clear_cache()
             self.from_repository.signatures.clear_cache()
             # Clear the repo's get_parent_map cache too.
